@@ -17,6 +17,7 @@ package l4wireguard
 import (
 	"bytes"
 	"encoding/binary"
+	"errors"
 	"io"
 	"strconv"
 
@@ -133,6 +134,10 @@ type MessageInitiation struct {
 }
 
 func (msg *MessageInitiation) FromBytes(src []byte) error {
+	// the reads below would silently ignore any trailing bytes
+	if len(src) != MessageInitiationBytesTotal {
+		return ErrIncorrectSourceLength
+	}
 	buf := bytes.NewBuffer(src)
 	if err := binary.Read(buf, MessageBytesOrder, &msg.Type); err != nil {
 		return err
@@ -223,6 +228,10 @@ func (msg *MessageTransport) ToBytes() ([]byte, error) {
 	}
 	return append(dst.Bytes(), msg.Content...), nil
 }
+
+// ErrIncorrectSourceLength is returned by MessageInitiation.FromBytes when the
+// source is not exactly MessageInitiationBytesTotal bytes long.
+var ErrIncorrectSourceLength = errors.New("incorrect source length")
 
 // Interface guards
 var (
